@@ -108,8 +108,22 @@ func mutateAccepted(c *fw.Case, t *pdus.Type, v *pdus.Values, img []byte) ([]byt
 	spans := layoutOf(t, v)
 	m := append([]byte(nil), img...)
 	hasTLV := len(t.Fields) > 0 && t.Fields[len(t.Fields)-1].Kind == "tlv"
-	pick := r.Intn(9)
+	pick := r.Intn(10)
 	switch pick {
+	case 9: // the last optional parameter's length overstates what is present / a bare option header ends the image
+		if hasTLV {
+			if l := v.F[t.Fields[len(t.Fields)-1].Spec].([]pdus.TLV); len(l) > 0 && r.Bool() {
+				last := l[len(l)-1]
+				off := len(m) - len(last.Val) - 2
+				binary.BigEndian.PutUint16(m[off:], uint16(len(last.Val)+r.Range(1, 5)))
+				return m, "option-length-overstated"
+			}
+			tag := uint16(0x1000 + r.Intn(0x100))
+			m = append(m, byte(tag>>8), byte(tag), 0, byte(r.Range(1, 40)))
+			binary.BigEndian.PutUint32(m, uint32(len(m)))
+			return m, "bare-option-header-at-end"
+		}
+		return m, "plain"
 	case 0, 1: // junk after the first NUL of fixed-width slots
 		n := 0
 		for _, s := range spans {
